@@ -38,8 +38,11 @@ def exec_site(p):
     f = compile_func(p)
     m = f.module
     cands = []
+    pkg = m.name.rsplit(".", 1)[0] if not m.rel.endswith("__init__.py") else m.name
+    reach = set(common.with_helpers(p, f, depth=2, same_module_only=False))
     for g in p.funcs.values():
-        if g.module is not m:
+        # the compiler module itself, or a helper of compile() in a sibling module of the same package
+        if g.module is not m and not (g in reach and g.module.name.startswith(pkg + ".")):
             continue
         for n in walk_no_nested(g.node):
             if isinstance(n, ast.Call) and isinstance(n.func, ast.Name) and n.func.id == "exec" and len(n.args) >= 1:
@@ -147,6 +150,22 @@ def r1(p, rep):
             rep.add("C04.R1", f"{w.qualname}:graph-returns-code", w.loc, ok, "graph=True returns the code string of the compiled function (through a helper)" if ok else "no return of the code string under graph=True found")
 
 
+def _only_builtins_entry(p, g, k, v):
+    def is_builtins(e):
+        r = p.resolve_expr(g.module, e, g.node)
+        return bool(r) and r[0] == "external" and r[1] in ("builtins", "__builtins__") or (isinstance(e, ast.Name) and e.id == "__builtins__")
+
+    if isinstance(k, ast.Constant):
+        return k.value == "__builtins__" and is_builtins(v)
+    if k is None and isinstance(v, ast.Name) and v.id not in g.params:
+        binds = [n for n in ast.walk(g.module.tree) if isinstance(n, ast.Assign) and any(isinstance(t, ast.Name) and t.id == v.id for t in n.targets)]
+        muts = [n for n in ast.walk(g.module.tree) if (isinstance(n, ast.Subscript) and isinstance(n.ctx, (ast.Store, ast.Del)) and norm(n.value) == v.id) or (isinstance(n, ast.Call) and isinstance(n.func, ast.Attribute) and norm(n.func.value) == v.id and n.func.attr in ("update", "setdefault", "pop", "clear", "__setitem__"))]
+        if len(binds) == 1 and not muts and binds[0] in g.module.tree.body and isinstance(binds[0].value, ast.Dict):
+            dd = binds[0].value
+            return all(isinstance(kk, ast.Constant) and kk.value == "__builtins__" and is_builtins(vv) for kk, vv in zip(dd.keys, dd.values))
+    return False
+
+
 def namespace_copy_of(p, g, ns_name):
     """definitions of the exec namespace `ns_name` in function g -> list of (definition node, copied mapping name or None)"""
     out = []
@@ -154,8 +173,12 @@ def namespace_copy_of(p, g, ns_name):
         if isinstance(n, ast.Assign) and any(isinstance(t, ast.Name) and t.id == ns_name for t in n.targets):
             d = n.value
             src_name = None
-            if isinstance(d, ast.Dict) and len(d.keys) == 1 and d.keys[0] is None and isinstance(d.values[0], ast.Name):
-                src_name = d.values[0].id
+            if isinstance(d, ast.Dict):
+                # `{**constants}`; entries that only spell out what exec() adds to an empty namespace anyway
+                # (`"__builtins__": builtins`, directly or through a module-level dict of just that) do not count
+                parts = [(k, v) for k, v in zip(d.keys, d.values) if not _only_builtins_entry(p, g, k, v)]
+                if len(parts) == 1 and parts[0][0] is None and isinstance(parts[0][1], ast.Name):
+                    src_name = parts[0][1].id
             elif isinstance(d, ast.Call) and isinstance(d.func, ast.Name) and d.func.id == "dict" and len(d.args) == 1 and isinstance(d.args[0], ast.Name) and not d.keywords:
                 src_name = d.args[0].id
             out.append((n, src_name))
